@@ -148,10 +148,12 @@ fn c09_field_vrate() {
 #[cfg_attr(kani, kani::unwind(33))]
 #[cfg_attr(kani, kani::stub(chrono::Utc::now, crate::verif::rt::stub_now))]
 #[cfg_attr(kani, kani::stub(crate::decoder::get_downlink_format, super::rows::stub_get_df))]
+#[cfg_attr(kani, kani::stub(crate::decoder::adsb::icao::get_icao, super::rows::stub_get_icao))]
 #[cfg_attr(kani, kani::stub(crate::decoder::utils::get_message_type, super::rows::stub_get_tc))]
 #[cfg_attr(kani, kani::stub(f64::atan2, stub_atan2))]
 #[cfg_attr(kani, kani::stub(f64::sqrt, stub_sqrt))]
 #[cfg_attr(kani, kani::stub(f64::powi, stub_powi))]
+#[cfg_attr(kani, kani::stub(crate::decoder::adsb::ais::ais, super::rows::stub_ais))]
 #[cfg_attr(verif_replay, test)]
 fn c09_row_tc19() {
     let m = frame28();
@@ -185,10 +187,12 @@ fn c09_row_tc19() {
 #[cfg_attr(kani, kani::unwind(33))]
 #[cfg_attr(kani, kani::stub(chrono::Utc::now, crate::verif::rt::stub_now))]
 #[cfg_attr(kani, kani::stub(crate::decoder::get_downlink_format, super::rows::stub_get_df))]
+#[cfg_attr(kani, kani::stub(crate::decoder::adsb::icao::get_icao, super::rows::stub_get_icao))]
 #[cfg_attr(kani, kani::stub(crate::decoder::utils::get_message_type, super::rows::stub_get_tc))]
 #[cfg_attr(kani, kani::stub(f64::atan2, stub_atan2))]
 #[cfg_attr(kani, kani::stub(f64::sqrt, stub_sqrt))]
 #[cfg_attr(kani, kani::stub(f64::powi, stub_powi))]
+#[cfg_attr(kani, kani::stub(crate::decoder::adsb::ais::ais, super::rows::stub_ais))]
 #[cfg_attr(verif_replay, test)]
 fn c09_create_tc19() {
     let m = frame28();
